@@ -79,7 +79,8 @@ PROPS = {
              "d=3): value classes and ten structure modifiers (one vanishing off-diagonal entry, off-diagonal part scaled by 1e-2..1e-14, prescribed gaps 1e-2..1e-14, whole matrix "
              "scaled by 1e+-20..100, single/two generators, projectors, diagonal, identity multiples). Judged: finite, |MV-VL|<=1e-9|M|, |V^dag V-1|<=1e-9, ascending when requested, "
              "trace and square-sum of eigenvalues.",
-        floors=dict(quick={"fixed.structured": 150, "dim.3": 5000, "dim.2": 500, "dim.6": 500, "mod.one-offdiagonal-entry-zeroed": 500}, thorough={"dim.3": 100000}),
+        floors=dict(quick={"fixed.structured": 150, "dim.3": 5000, "dim.2": 500, "dim.6": 500, "mod.one-offdiagonal-entry-zeroed": 500,
+                           "solver.closed_form_accepted(d=3)": 1000, "solver.general_solver_after_rejected_closed_form(d=3)": 1000}, thorough={"dim.3": 100000}),
         assumptions=["tolerance is absolute 1e-9 relative to |M|max: the claim is 'a valid decomposition', not last-bit accuracy"],
     ),
     "C07": dict(
